@@ -81,7 +81,8 @@ def cmp_logged(gt, la, path, problems):
     if len(la.children) != len(gt["children"]):
         problems.append("%s: %d children, expected %d" % (path, len(la.children), len(gt["children"])))
         return
-    for i, (g, c) in enumerate(zip(gt["children"], la.children)):
+    # children in emission order (a remote child continued later is emitted after its siblings)
+    for i, (g, c) in enumerate(zip(sorted(gt["children"], key=lambda n: n["seq"]), la.children)):
         cmp_logged(g, c, "%s/%d" % (path, i), problems)
 
 
@@ -89,8 +90,9 @@ def logged_to_norm(la):
     if isinstance(la, LoggedMessage):
         m = la.message
         return ("m", tuple(m["task_level"]), m.get("message_type"), m.get("nid"))
+    # the parser orders children by task_level; emission order differs only for remote children continued later
     return ("a", tuple(la.start_message["task_level"][:-1]), la.start_message.get("action_type"), la.end_message.get("action_status"),
-            tuple(la.end_message["task_level"]), tuple(logged_to_norm(c) for c in la.children))
+            tuple(la.end_message["task_level"]), tuple(sorted((logged_to_norm(c) for c in la.children), key=lambda n: n[1])))
 
 
 def written_to_norm(w):
@@ -126,11 +128,12 @@ def one(seed, i, res):
     rng = random.Random("%s:C17:%d" % (seed, i))
     g = gen.ProgGen(rng, max_depth=rng.choice([3, 4, 6]), max_nodes=rng.choice([10, 25, 50]), value_depth=1, type_names=TYPES,
                     allow_typed=False, allow_tb=False, act_styles=["with", "ctx_finish", "run_finish", "log_call", "start_task"],
-                    msg_styles=["log_message", "action.log", "Message.log", "Message.new.write"], fail_p=0.3)
+                    msg_styles=["log_message", "action.log", "Message.log", "Message.new.write"], fail_p=0.3, defer_p=0.4)
     prog = g.program()
     logger = MemoryLogger()
     prev = swap_logger(logger)
     it = Interp()
+    it.allow_defer = True
     try:
         forest = it.run(prog)
     finally:
@@ -171,7 +174,7 @@ def one(seed, i, res):
             pre = []
 
             def walk(x):
-                for ch in x["children"]:
+                for ch in sorted(x["children"], key=lambda n: n["seq"]):
                     pre.append(ch)
                     if ch["kind"] == "action":
                         walk(ch)
@@ -191,7 +194,7 @@ def one(seed, i, res):
                         break
 
             def tt(x):
-                return {x["type"]: [tt(ch) if ch["kind"] == "action" else ch["type"] for ch in x["children"]]}
+                return {x["type"]: [tt(ch) if ch["kind"] == "action" else ch["type"] for ch in sorted(x["children"], key=lambda n: n["seq"])]}
             if la.type_tree() != tt(n):
                 problems.append("%s[%d]: type_tree() %r != %r" % (T, j, la.type_tree(), tt(n)))
         # assertHasAction on the first entry
